@@ -547,6 +547,14 @@ func (i *instance) writeConfig() (err error) {
 	// backend shards -- fills the .Global and .Backends attributes
 	if i.options.BackendShards > 0 {
 		shards := i.config.Backends().ChangedShards()
+		if i.lastFailed {
+			// a failed update might have left behind shard files that the state
+			// it committed doesn't consider changed anymore, rewrite all of them
+			shards = make([]int, i.options.BackendShards)
+			for j := range shards {
+				shards[j] = j
+			}
+		}
 		if len(shards) > 0 {
 			strshards := make([]string, len(shards))
 			for n, j := range shards {
